@@ -80,8 +80,8 @@ def wiring_scenarios():
 
     # (4) cache slice: the Watcher is given the 6 newest boot blocks.  Dispute 1 is in the 6th newest block at the restart
     # (answered when the late appointment arrives), dispute 2 in the 7th (not answered); the same in steady state afterwards.
-    # The blocks after the late trigger are delivered one by one: its penalty is rebroadcast exactly RETRY_N blocks after the
-    # height the Carrier was given at the start.
+    # The blocks after the late trigger are delivered one by one (the rebroadcast of its penalty, RETRY_N blocks after the
+    # recorded submission height, is judged in a Chain event of its own).
     ops = [reg(1), reg(2), mine([D(2)]), mine([D(1)]), ff(5, "end")] + RESTART + [
         add(1, 1, valid(1)), get(1, 1), add(1, 2, valid(2)), get(1, 2), sub(1),
         mine([D(4)]), mine([D(3)]), ff(5, "each"), add(2, 3, valid(3)), get(2, 3), add(2, 4, valid(4)), get(2, 4), sub(2)]
@@ -130,6 +130,10 @@ E2E_OPS = ("boot", "crash", "restart", "poll", "register", "add", "get", "sub", 
            "mempool_add", "mempool_drop")
 
 
+E2E_BLOBS = ("valid", "garbled", "trailing", "truncated")     # the kinds teosd_rig can build
+E2E_SIGS = ("valid", "other_msg", "unregistered", "truncated", "bitflip", "not_zbase32")
+
+
 def _small(tx):
     """penalty variants 2..5 are padded to 2048..4097 bytes: over HTTP only bodies up to 2048 bytes reach the tower"""
     return tx + 4 if isinstance(tx, int) and tx % 10 in (2, 3, 4, 5) else tx
@@ -149,9 +153,13 @@ def e2e_adapt(sc):
             return None
         if op.get("sig") == "empty":
             continue
+        if op.get("sig", "valid") not in E2E_SIGS:
+            return None
         op = json.loads(json.dumps(op))
         if o == "add":
             b = op["blob"]
+            if b["kind"] not in E2E_BLOBS:
+                return None
             if b["kind"] == "garbled":
                 b["size"] = min(b["size"], 900)
             else:
